@@ -39,7 +39,11 @@ func (p *verifPlugin) Open(path string) (segment.Segment, error) {
 		p.opened = map[string]int{}
 	}
 	p.opened[filepath.Base(path)]++
-	return &verifPSeg{verifSeg{n: int(data[0]), idOf: append([]byte{}, data[1:]...), refs: 1, path: path}}, nil
+	ps := &verifPSeg{verifSeg{n: int(data[0]), idOf: append([]byte{}, data[1:]...), refs: 1, path: path}}
+	if verifTrackOpened {
+		verifOpenedSegs = append(verifOpenedSegs, ps)
+	}
+	return ps, nil
 }
 func (p *verifPlugin) OpenUsing(path string, config map[string]interface{}) (segment.Segment, error) {
 	return p.Open(path)
@@ -66,6 +70,10 @@ func verifWriteSegFile(path string, ids []byte) error {
 }
 
 var verifThePlugin = &verifPlugin{}
+
+// segments handed out by the stub plugin's Open while tracking is on (each stands for an open file)
+var verifTrackOpened bool
+var verifOpenedSegs []*verifPSeg
 
 // verifDiskScorch: a Scorch over a real directory and a real (natively) / modelled (symbolically)
 // bbolt file, with the stub plugin, no background loops.
